@@ -58,6 +58,8 @@ type Contract struct {
 	Overflow   bool
 	Pure       bool
 	Prune      bool // drop branches whose path condition the solver refutes quickly
+	Impls      bool // abstract interface-method contract: every implementation in the loaded packages that has no contract of its own is verified against it
+	Aliases    []string // extra name per parameter (an implementation checked against an interface contract: self, then the interface's parameter names)
 	Unfold     []string
 	Line       int
 	File       string
@@ -162,7 +164,7 @@ var clauseKW = map[string]bool{
 	"maypanic": true, "modifies": true, "loop": true, "invariant": true, "decreases": true,
 	"inline": true, "trusted": true, "abstract": true, "constructs": true, "ghost": true, "atunlock": true,
 	"overflow": true, "pure": true, "prune": true, "assume": true, "unfold": true, "emits": true, "emits_ok": true,
-	"var": true, "hyp": true, "concl": true,
+	"var": true, "hyp": true, "concl": true, "implementations": true,
 }
 
 var topKW = map[string]bool{
@@ -549,6 +551,8 @@ func ParseContracts(pkgPath, path, src string) (*ContractFile, error) {
 				cur.Overflow = true
 			case "pure":
 				cur.Pure = true
+			case "implementations":
+				cur.Impls = true
 			case "prune":
 				cur.Prune = true
 			case "unfold":
